@@ -1,17 +1,23 @@
 #!/bin/bash
-# Run every seeded change against the quick check of its property; table to seeded/RESULTS.md
+# Run every seeded change (all waves) against the quick check(s) recorded in its meta.json; table to seeded/RESULTS.md.
+# Each patch is applied to a scratch worktree of /repo's HEAD (bin/seedrun.sh): /repo and evidence/ are not touched.
 cd "$(dirname "$0")/.."
 OUT=seeded/RESULTS.md
 echo "# Seeded changes vs. checks (bin/seedall.sh, /repo HEAD $(git -C /repo rev-parse --short HEAD), $(date -u +%FT%TZ))" > $OUT
 echo "" >> $OUT
-echo "| seed | check | exit code with the patch | first violation line |" >> $OUT
-echo "|---|---|---|---|" >> $OUT
-for d in seeded/C*/; do
-  id=$(basename $d)
-  res=$(LINES_MAX=400 bin/seedrun.sh /verif/$d/patch.diff $id 2>&1 | grep -v '^WARNING')
-  rc=$(echo "$res" | grep -o 'rc=[0-9]*' | tail -1)
-  v=$(echo "$res" | grep -A1 '^VIOLATION' | sed -n 2p | cut -c1-160 | tr '|' '/')
-  echo "| $id | bin/check $id --tier quick | $rc | $v |" >> $OUT
-  echo "$id $rc"
+echo "| wave | seed | check | exit code with the patch | first violation line |" >> $OUT
+echo "|---|---|---|---|---|" >> $OUT
+for w in seeded seeded2 seeded3; do
+  for d in $w/C*/; do
+    id=$(basename $d)
+    checks=$(.venv/bin/python -c "import json,sys; m=json.load(open('$d/meta.json')); print(' '.join(m.get('checks') or [m['property']]))" 2>/dev/null)
+    first=$(echo $checks | awk '{print $1}')
+    res=$(LINES_MAX=400 bin/seedrun.sh /verif/$d/patch.diff $first 2>&1 | grep -v '^WARNING')
+    rc=$(echo "$res" | grep -o 'rc=[0-9]*' | tail -1)
+    [ -z "$rc" ] && rc="$(echo "$res" | tail -1 | cut -c1-60)"
+    v=$(echo "$res" | grep -A1 '^VIOLATION' | sed -n 2p | cut -c1-160 | tr '|' '/')
+    echo "| ${w#seeded}. | $id | bin/check $first --tier quick | $rc | $v |" >> $OUT
+    echo "$w/$id $first $rc"
+  done
 done
 git -C /repo status --short | head -2
